@@ -236,3 +236,11 @@ FN += [
     (lints.loop_target_clobbers, "def f(ns):\n    repo = ns.domain.pick()\n    for repo in ns.domain.installed_repos:\n        for pkg in repo:\n            keep(pkg)\n    return list(repo.itermatch(ns.restrict))\n",
      "def f(ns):\n    repo = ns.domain.pick()\n    for irepo in ns.domain.installed_repos:\n        for pkg in irepo:\n            keep(pkg)\n    return list(repo.itermatch(ns.restrict))\n"),
 ]
+
+FN += [
+    (lints.mode_mask_drops_special_bits, "def gen(stat):\n    mode = stat.st_mode & 0o777\n    return mode\n", "from stat import S_IMODE\ndef gen(stat):\n    mode = S_IMODE(stat.st_mode)\n    return mode\n"),
+]
+PROG += [
+    (_cls(lambda P, K: lints.keyerror_on_defaultdict(K)), "from collections import defaultdict\nclass D:\n    def __init__(self):\n        self._dict = defaultdict(list)\n    def render(self, key):\n        try:\n            items = self._dict[key]\n        except KeyError:\n            items = self._globals\n        return items\n",
+     "from collections import defaultdict\nclass D:\n    def __init__(self):\n        self._dict = defaultdict(list)\n    def render(self, key):\n        items = self._dict.get(key)\n        if items is None:\n            items = self._globals\n        return items\n"),
+]
